@@ -72,17 +72,17 @@ class DataFrame:
             # make the list of dicts iterable
             dicts = iter(dictionaries)
             # extract the first of the list, and get the types from it
-            first_dict = next(dicts)
+            first_dict = next(dicts, None)
 
             # if we have an explicit schema, use that, otherwise guess from the first entry
-            self._schema = [str(k) for k in first_dict]
+            self._schema = [str(k) for k in first_dict or {}]
             self._row_factory = Row.create_class(self._schema)
-            keys = list(first_dict.keys())
+            keys = list((first_dict or {}).keys())
 
             # create a list of tuples
             self._rows = [
                 self._row_factory([row.get(k, None) for k in keys])
-                for row in chain([first_dict], dicts)
+                for row in chain([] if first_dict is None else [first_dict], dicts)
             ]
         else:
             self._schema = schema  # type:ignore
